@@ -74,7 +74,7 @@ impl Property for C03 {
         "C03"
     }
     fn cases(&self, cfg: &Cfg) -> u64 {
-        cfg.tier.pick(2_000, 200_000)
+        cfg.tier.pick(12_000, 200_000)
     }
     fn run_case(&self, cfg: &Cfg, i: u64, acc: &mut Acc) {
         let mut r = Rng::keyed(&[cfg.seed, 3, i]);
